@@ -6,6 +6,7 @@ package main
 import (
 	"encoding/json"
 	"fmt"
+	"github.com/biogo/biogo/seq/linear"
 	"strings"
 	"unicode"
 
@@ -23,6 +24,7 @@ type kase struct {
 	S       string `json:"s,omitempty"`      // pairing definition
 	C       string `json:"c,omitempty"`
 	Letters []byte `json:"letters,omitempty"` // AllValid input
+	Used    bool   `json:"used,omitempty"`    // built-in: sequences over the alphabet were reverse-complemented first
 	// Prev: an alphabet with this definition and the OTHER case sensitivity (same molecule type, gap and
 	// ambiguity letter) is built directly before the one of the case
 	Prev string `json:"prev,omitempty"`
@@ -144,6 +146,9 @@ func complementLaws(c *enum.Ctx, k kase, a alphabet.Complementor, s, cs string, 
 		ref[s[i]] = cs[i]
 	}
 	tab := a.ComplementTable()
+	// the table is kept while the tables of alphabets with other pairings are asked for
+	alphabet.RNA.ComplementTable()
+	alphabet.DNAredundant.ComplementTable()
 	if len(tab) != 256 {
 		fail("table-len", "ComplementTable has %d entries", len(tab))
 		return
@@ -241,6 +246,23 @@ func check(c *enum.Ctx, k kase) bool {
 			}
 			if b.a.IsCased() {
 				c.Fail("builtin/"+b.name+"/cased", k, "built-in alphabet reports IsCased")
+			}
+			if k.Used {
+				// the alphabet has been at work first: sequences over it that hold every byte value (paired,
+				// unpaired and invalid letters alike) are reverse-complemented and validated
+				c.Guard("builtin/"+b.name+"/use-panic", k, func() {
+					all := make([]alphabet.Letter, 256)
+					qall := make([]alphabet.QLetter, 256)
+					for i := range all {
+						all[i] = alphabet.Letter(i)
+						qall[i] = alphabet.QLetter{L: alphabet.Letter(i), Q: 20}
+					}
+					if _, ok := b.a.(alphabet.Complementor); ok {
+						linear.NewSeq("u", all, b.a).RevComp()
+						linear.NewQSeq("u", qall, b.a, alphabet.Sanger).RevComp()
+					}
+					linear.NewSeq("u", all, b.a).Validate()
+				})
 			}
 			alphabetLaws(c, k, b.a, b.def, false, "builtin/"+b.name)
 			if cm, ok := b.a.(alphabet.Complementor); ok && b.s != "" {
@@ -348,7 +370,7 @@ func check(c *enum.Ctx, k kase) bool {
 }
 
 func run(c *enum.Ctx) {
-	c.Rule("complete: 7 built-in alphabets x all 256 letters (validity, index, letter, complement method/table) and every letter slice of length <=3 over {valid lower, valid upper, invalid, 0xFF} and every slice of length 4..19, 63..66, 258, 259 and 2^k-1, 2^k, 2^k+1 (127..1025) of valid letters with zero, one or two invalid letters at every position; bounded-exhaustive: every alphabet definition of length 1..4 over {a,B,c,-,*} without case-duplicates, cased and uncased, and every case-sensitive definition of length 1..4 over {a,A,B,b,c} that holds a letter in both cases; a case-insensitive alphabet and the case-sensitive one with the same expanded letters built in turn, in either order; every pair of strings of length <=3 over {a,c,g,t} (plus mismatched lengths and a non-ASCII rune at every position) as a pairing definition, with a complementor over every alphabet it is closed over, cased and uncased, the uncased ones also spelt in upper and mixed case (also with a Pairing value that served a case-insensitive complementor first), and a case-insensitive complementor over the pairing spelt in one case only (method and table must agree on all 256 letters); distinct = distinct case descriptors; non-trivial = cases where a constructor succeeded or a built-in was queried")
+	c.Rule("complete: 7 built-in alphabets x all 256 letters (validity, index, letter, complement method/table; the table kept while other alphabets' tables are asked for; again after sequences holding every byte value were reverse-complemented over the alphabet) and every letter slice of length <=3 over {valid lower, valid upper, invalid, 0xFF} and every slice of length 4..19, 63..66, 258, 259 and 2^k-1, 2^k, 2^k+1 (127..1025) of valid letters with zero, one or two invalid letters at every position; bounded-exhaustive: every alphabet definition of length 1..4 over {a,B,c,-,*} without case-duplicates, cased and uncased, and every case-sensitive definition of length 1..4 over {a,A,B,b,c} that holds a letter in both cases; a case-insensitive alphabet and the case-sensitive one with the same expanded letters built in turn, in either order; every pair of strings of length <=3 over {a,c,g,t} (plus mismatched lengths and a non-ASCII rune at every position) as a pairing definition, with a complementor over every alphabet it is closed over, cased and uncased, the uncased ones also spelt in upper and mixed case (also with a Pairing value that served a case-insensitive complementor first), and a case-insensitive complementor over the pairing spelt in one case only (method and table must agree on all 256 letters); distinct = distinct case descriptors; non-trivial = cases where a constructor succeeded or a built-in was queried")
 	c.Assume("reference definitions of the built-in alphabets are restated in the harness from the package documentation")
 	n := 0
 	do := func(k kase) {
@@ -364,6 +386,7 @@ func run(c *enum.Ctx) {
 	}
 	for _, b := range builtins {
 		do(kase{Kind: "builtin", Name: b.name})
+		do(kase{Kind: "builtin", Name: b.name, Used: true})
 		pool := []byte{b.def[len(b.def)-1], b.def[1], strings.ToUpper(b.def)[1], 'j', '!', 0xFF}
 		enum.Strings(string([]byte{0, 1, 2, 3, 4, 5}), 0, 3, func(ix []byte) {
 			ls := make([]byte, len(ix))
